@@ -204,6 +204,7 @@ func checkC14(c *core.Ctx, l *core.Ledger) {
 		l.Check(len(why) == 0, "EQ-KIND", "wire."+wc.fn, c.Rel(fd.Pos()), wc.kind+" comparison after a size test", strings.Join(uniq(why), "; "))
 	}
 	l.Floor("EQ-KIND", 8)
+	checkPerItemState(c, l)
 	checkEqPrim(c, l)
 
 	// EQ-EXH
@@ -416,4 +417,68 @@ func checkEqPrim(c *core.Ctx, l *core.Ledger) {
 		l.Check(okT && okArgs, "EQ-PRIM", key, c.Rel(ret.Pos()), "compared as "+row.goType+" values, one from each argument", fmt.Sprintf("values of wire type %s are compared as %s/%s (%s == %s) instead of as %s from each argument: equality differs from the value type's (e.g. +0.0 and -0.0, which are equal doubles, have different bits)", name, tx, ty, sx, sy, row.goType))
 	}
 	l.Floor("EQ-PRIM", 6)
+}
+
+// checkPerItemState: a callback handed to ForEach runs once per item. A
+// captured boolean that the callback sets and also tests must be assigned in
+// the callback before it is tested on every path: otherwise the outcome for one
+// item (a "matched" flag) leaks into the next, and an unequal pair of maps or
+// sets is found equal once any earlier item matched.
+func checkPerItemState(c *core.Ctx, l *core.Ledger) {
+	n := 0
+	for _, f := range c.AllFuncs("wire") {
+		if c.IsTestFile(f.Pos()) {
+			continue
+		}
+		core.Instrs(f, func(in ssa.Instruction) {
+			call, ok := in.(ssa.CallInstruction)
+			if !ok || !call.Common().IsInvoke() || call.Common().Method.Name() != "ForEach" || len(call.Common().Args) != 1 {
+				return
+			}
+			mc, ok := call.Common().Args[0].(*ssa.MakeClosure)
+			if !ok {
+				return
+			}
+			cl := mc.Fn.(*ssa.Function)
+			n++
+			var why []string
+			for _, fv := range cl.FreeVars {
+				pt, isP := fv.Type().Underlying().(*types.Pointer)
+				if !isP {
+					continue
+				}
+				if b, isB := pt.Elem().Underlying().(*types.Basic); !isB || b.Kind() != types.Bool {
+					continue
+				}
+				var loads, stores []ssa.Instruction
+				for _, r := range *fv.Referrers() {
+					switch x := r.(type) {
+					case *ssa.Store:
+						if x.Addr == ssa.Value(fv) {
+							stores = append(stores, x)
+						}
+					case *ssa.UnOp:
+						loads = append(loads, x)
+					}
+				}
+				if len(stores) == 0 || len(loads) == 0 {
+					continue
+				}
+				for _, ld := range loads {
+					if found, _ := core.PathFromEntryAvoiding(cl, func(i2 ssa.Instruction) bool {
+						for _, st := range stores {
+							if st == i2 {
+								return true
+							}
+						}
+						return false
+					}, func(i2 ssa.Instruction) bool { return i2 == ld }); found {
+						why = append(why, fmt.Sprintf("the flag %s is tested at %s on a path on which this call has not assigned it: it still holds what an earlier item left there", fv.Name(), c.Rel(ld.Pos())))
+					}
+				}
+			}
+			l.Check(len(why) == 0, "EQ-KIND", "per-item:"+core.SSAName(cl), c.Rel(cl.Pos()), "the per-item callback carries no boolean state from one item to the next", strings.Join(uniq(why), "; "))
+		})
+	}
+	l.Units["foreach_callbacks_in_wire"] = n
 }
